@@ -153,7 +153,7 @@ class OneCoreDisk(DiskBase):
     see docs/blocking for point numbers and faces/grid indexing."""
 
     chops: ClassVar = [
-        [0],  # axis 0
+        [1],  # axis 0
         [1, 2],  # axis 1
     ]
 
